@@ -236,6 +236,15 @@ func TestC04Sys(t *testing.T) {
 		}
 	}
 
+	// request keys of special classes: the "grpc-" prefix (other than the reserved grpc-timeout), look-alikes and
+	// HTTP/2-ish names: whatever the caller attaches reaches the handler
+	special := metadata.MD{"grpc-trace-bin": {"\x00\x01\xff"}, "grpc-tags-bin": {"", "\x7f"}, "grpc-foo": {"a", "b"}, "Grpc-Client-App": {"app"},
+		"grpcx": {"x"}, "content-type": {"application/grpc+proto"}, "user-agent": {"goat-test/1"}, "te": {"trailers"}, "grpc-status": {"7"}, "grpc-message": {"m"}}
+	for _, k := range c08Kinds {
+		scs = append(scs, c04Scenario{k: k, ctxMD: special}, c04Scenario{k: k, ctxMD: special, deadline: true, fail: true},
+			c04Scenario{k: k, icPairs: []string{"grpc-trace-bin", "\x00\x02", "grpc-foo", "ic", "user-agent", "ua", "grpcx", "y"}},
+			c04Scenario{k: k, ctxMD: metadata.MD{"grpc-foo": {"ctx"}}, icPairs: []string{"grpc-foo", "ic", "grpc-tags-bin", "\xff"}, deadline: true})
+	}
 	// Serve context dimension: every scenario above gets one of the three (by position) ...
 	for i := range scs {
 		scs[i].serveMD = i % 3
